@@ -245,27 +245,28 @@ def _unlimit_stack():
 
 
 def run_lines(binary, lines, shards=NPROC, timeout=900):
-    """run `binary` over the case lines, sharded over processes; order-preserving.
-    A crashed shard is re-run line by line so that one bad case cannot hide the others."""
+    """run `binary` over the case lines in chunks of at most 200 lines on a pool of `shards` processes; order-preserving.
+    A crashed or timed-out chunk is re-run line by line, so that one bad or very slow case cannot hide (or be blamed
+    on) the others: only a line that alone crashes / exceeds the timeout keeps that mark."""
     if not lines:
         return []
-    n = max(1, min(shards, (len(lines) + 7) // 8))
-    chunks = [lines[i::n] for i in range(n)]
-    with ThreadPoolExecutor(max_workers=n) as ex:
+    workers = max(1, min(shards, (len(lines) + 7) // 8))
+    size = max(8, min(200, (len(lines) + workers - 1) // workers))
+    chunks = [lines[i:i + size] for i in range(0, len(lines), size)]
+    with ThreadPoolExecutor(max_workers=workers) as ex:
         res = list(ex.map(_run_shard, [(binary, c, timeout) for c in chunks]))
-    for ci, (c, r) in enumerate(zip(chunks, res)):
-        if any(x.startswith("CRASH") or x == "SKIPPED-AFTER-CRASH" for x in r):
-            fixed = []
-            for ln, old in zip(c, r):
-                if old.startswith("CRASH") or old == "SKIPPED-AFTER-CRASH":
-                    fixed.append(_run_shard((binary, [ln], timeout))[0])
-                else:
-                    fixed.append(old)
-            res[ci] = fixed
-    out = [None] * len(lines)
-    for ci in range(n):
-        for j, v in enumerate(res[ci]):
-            out[ci + j * n] = v
+        redo = []
+        for ci, (c, r) in enumerate(zip(chunks, res)):
+            for li, old in enumerate(r):
+                if old.startswith("CRASH") or old == "SKIPPED-AFTER-CRASH" or old == "TIMEOUT":
+                    redo.append((ci, li))
+        if redo:
+            single = list(ex.map(_run_shard, [(binary, [chunks[ci][li]], timeout) for ci, li in redo]))
+            for (ci, li), o in zip(redo, single):
+                res[ci][li] = o[0]
+    out = []
+    for r in res:
+        out.extend(r)
     return out
 
 
